@@ -108,6 +108,8 @@ struct Case {
     oq: Option<usize>,
     /// the peer keeps not reading for 4 s (longer than T_DISC) after a token cause was raised: the connection must end regardless
     stall: bool,
+    /// modes s / a: every connection is accepted and upgraded first, then all are served at the same instant
+    burst: bool,
 }
 impl Case {
     /// the cause that ends the connections that end together (all of them, or the survivors)
@@ -149,6 +151,7 @@ fn parse_case(line: &str) -> Option<Case> {
         shk: f.get("shk").map(|s| s == "1").unwrap_or(false),
         oq: f.get("oq").and_then(|s| ph(s)).map(|q| q as usize),
         stall: f.get("stall").map(|s| s == "1").unwrap_or(false),
+        burst: f.get("burst").map(|s| s == "1").unwrap_or(false),
     })
 }
 
@@ -174,6 +177,10 @@ struct World {
     trigger: AtomicBool,
     release: AtomicBool,
     stop: AtomicBool,
+    /// peer ids of the connections between their first connect hook and their first disconnect hook
+    live: Mutex<std::collections::HashSet<u64>>,
+    /// connections whose peer id was at that moment the id of another live connection
+    dups: AtomicUsize,
     sleepers: AtomicUsize,
     inline_in: AtomicUsize,
     parked: AtomicUsize,
@@ -203,6 +210,7 @@ impl World {
 fn connect_hook(w: &World, i: usize, h: &Hact, peer: &PeerHandle, hs: Option<&HandshakeContext>) {
     let id = peer.peer_id().0;
     let rec = w.rec(id);
+    if i == 0 && !w.live.lock().unwrap().insert(id) { w.dups.fetch_add(1, SeqCst); }
     let present = w.registry.get(PeerId(id)).is_some();
     w.push(&rec, Hev::C(i, present));
     match h {
@@ -229,6 +237,7 @@ fn connect_hook(w: &World, i: usize, h: &Hact, peer: &PeerHandle, hs: Option<&Ha
 }
 
 fn disconnect_hook(w: &World, j: usize, id: PeerId) {
+    if j == 0 { w.live.lock().unwrap().remove(&id.0); }
     let rec = w.rec(id.0);
     // A parked handler polls the token every millisecond: when the token was
     // cancelled BEFORE the hooks started it is seen well within this window;
@@ -377,11 +386,23 @@ fn bind_listener(small: bool) -> Result<TcpListener, String> {
     TcpListener::from_std(s.into()).map_err(|e| format!("from_std:{e}"))
 }
 
-async fn serve_one(shared: SharedWebSocketServer, stream: TcpStream, adopt: bool, ctx: bool, with_cancel: bool, token: ShutdownToken) {
+/// `gate` = (connections ready to be served, how many to wait for): serving starts for all of them together
+async fn burst_gate(gate: &Option<Arc<(AtomicUsize, usize)>>) {
+    if let Some(g) = gate {
+        // the k-th wave of g.1 connections is released when all of its members have arrived
+        let v = g.0.fetch_add(1, SeqCst);
+        let target = (v / g.1 + 1) * g.1;
+        let t0 = Instant::now();
+        while g.0.load(SeqCst) < target && t0.elapsed() < Duration::from_secs(3) { std::hint::spin_loop(); if t0.elapsed() > Duration::from_millis(2) { tokio::task::yield_now().await; } }
+    }
+}
+
+async fn serve_one(shared: SharedWebSocketServer, stream: TcpStream, adopt: bool, ctx: bool, with_cancel: bool, token: ShutdownToken, gate: Option<Arc<(AtomicUsize, usize)>>) {
     let _ = stream.set_nodelay(true);
     if adopt {
         let Ok((stream, request)) = hand_rolled_upgrade(stream).await else { return };
         let ws = shared.adopt_upgraded(stream).await;
+        burst_gate(&gate).await;
         let _ = match (ctx, with_cancel) {
             (false, false) => shared.serve_connection(ws).await,
             (false, true) => shared.serve_connection_with_cancel(ws, &token).await,
@@ -390,9 +411,11 @@ async fn serve_one(shared: SharedWebSocketServer, stream: TcpStream, adopt: bool
         };
     } else if ctx {
         let Ok((ws, hs)) = shared.accept_with_handshake(stream, "/repe").await else { return };
+        burst_gate(&gate).await;
         let _ = if with_cancel { shared.serve_connection_with_cancel_and_handshake(ws, hs, &token).await } else { shared.serve_connection_with_handshake(ws, hs).await };
     } else {
         let Ok(ws) = shared.accept(stream, "/repe").await else { return };
+        burst_gate(&gate).await;
         let _ = if with_cancel { shared.serve_connection_with_cancel(ws, &token).await } else { shared.serve_connection(ws).await };
     }
 }
@@ -427,10 +450,11 @@ fn start_server(c: &Case, w: &Arc<World>) -> Result<ServerCtl, String> {
             // the plain entry points when the token is never used, so both families are exercised
             let with_cancel = c.stag || c.cause == Cause::Cancel || (c.cause != Cause::Abort && c.conns % 2 == 0);
             let (aborts, token) = (conn_aborts.clone(), token.clone());
+            let gate = if c.burst { Some(Arc::new((AtomicUsize::new(0), c.conns as usize))) } else { None };
             tasks.push(tokio::spawn(async move {
                 loop {
                     let Ok((stream, _)) = listener.accept().await else { break };
-                    let h = tokio::spawn(serve_one(shared.clone(), stream, adopt, ctx, with_cancel, token.clone()));
+                    let h = tokio::spawn(serve_one(shared.clone(), stream, adopt, ctx, with_cancel, token.clone(), gate.clone()));
                     aborts.lock().unwrap().push(h.abort_handle());
                 }
             }));
@@ -653,11 +677,13 @@ async fn run_async(c: Case) -> Result<String, String> {
     if c.hs != Hs::Ok && c.mode == Mode::Adopt { return Err("badcase:adopt-handshake".into()); }
     if c.phase == Phase::Hooks && !c.token_cause() { return Err("badcase:hooks-phase-cause".into()); }
     if c.stag && (c.conns < 2 || c.hs != Hs::Ok || c.panic_reached() || !matches!(c.phase, Phase::Idle | Phase::OffR) || matches!(c.cause, Cause::Cancel | Cause::Abort) || c.reqs == 0) { return Err("badcase:staggered".into()); }
-    let w = Arc::new(World {
+    let new_world = |c: &Case| Arc::new(World {
         seq: AtomicU64::new(0), recs: Mutex::new(HashMap::new()), registry: PeerRegistry::new(), phase_hooks: c.phase == Phase::Hooks, shk: c.shk, tiny_queue: c.oq.is_some(), flood: c.flood,
         trigger: AtomicBool::new(false), release: AtomicBool::new(false), stop: AtomicBool::new(false),
+        live: Mutex::new(std::collections::HashSet::new()), dups: AtomicUsize::new(0),
         sleepers: AtomicUsize::new(0), inline_in: AtomicUsize::new(0), parked: AtomicUsize::new(0), flooded: AtomicUsize::new(0),
     });
+    let w = new_world(&c);
     let mut ctl = start_server(&c, &w)?;
     if c.early {
         if !(c.phase == Phase::Hooks && c.cause == Cause::Cancel && matches!(c.mode, Mode::ServeConn | Mode::Adopt)) { return Err("badcase:early".into()); }
@@ -756,6 +782,31 @@ async fn run_async(c: Case) -> Result<String, String> {
     }
     for pr in paired.iter_mut() { if pr.1.is_none() { if let Some(i) = used.iter().position(|u| !*u) { used[i] = true; pr.1 = Some(i); } } }
     for i in 0..wires.len() { if !used[i] { paired.push((None, Some(i))); } }
+    // `burst`: further waves on a second server built alike (nothing of it is part of the observation
+    // above): every wave, all connections are served at the same instant; no two LIVE connections may
+    // ever carry the same peer id (each has "its" registry entry from connect until disconnect)
+    if c.burst && note.is_none() {
+        let w2 = new_world(&c);
+        let mut ctl2 = start_server(&c, &w2)?;
+        let waves = 30usize;
+        for _ in 0..waves {
+            let js: Vec<_> = (0..n).map(|_| { let addr = ctl2.addr; tokio::spawn(async move {
+                let Ok(stream) = tcp_connect(addr, false).await else { return };
+                let Ok(Ok((mut ws, _))) = tokio::time::timeout(T_CONN, tt::client_async(format!("ws://{addr}/repe?c=w"), stream)).await else { return };
+                let _ = ws.send(WsMsg::Binary(frame(0, 1, b"/k", b"null"))).await;
+                let _ = tokio::time::timeout(Duration::from_secs(3), ws.next()).await;
+                let _ = ws.send(WsMsg::Close(None)).await;
+                let _ = tokio::time::timeout(Duration::from_millis(500), ws.next()).await;
+            }) }).collect();
+            for j in js { let _ = tokio::time::timeout(Duration::from_secs(8), j).await; }
+        }
+        wait_until(Duration::from_secs(2), || w2.live.lock().unwrap().is_empty()).await;
+        let d = w2.dups.load(SeqCst);
+        w2.stop.store(true, SeqCst); w2.release.store(true, SeqCst); w2.trigger.store(true, SeqCst);
+        ctl2.teardown();
+        if d > 0 { note = Some(format!("peer-id-shared-by-live-connections:{d}")); }
+    }
+    if w.dups.load(SeqCst) > 0 && note.is_none() { note = Some(format!("peer-id-shared-by-live-connections:{}", w.dups.load(SeqCst))); }
     let mut out = format!("nrec={}", hx(recs.len() as u64));
     for (k, (rec, wi)) in paired.iter().enumerate() {
         let (trace, after, seen) = match rec {
@@ -912,6 +963,13 @@ fn gen_cases(seed: u64, thorough: bool) -> Vec<String> {
                 let ctx = ctx_of(&mut rng, mode, &h);
                 out.push(format!("{} oq={} stall=1", case_line(out.len(), mode, "ok", ctx, &h, cause, "queue", rng.range(1, 2), rng.range(24, 48), rng.range(1, 3)), hx(rng.range(1, 3))));
             }
+        }
+        // bursts: 16 connections are accepted and upgraded first and then served at the same instant
+        // (their peer ids are minted concurrently); each has its own registry entry from connect to disconnect
+        for k in 0..(if thorough { 12 } else { 6 }) {
+            let mode = if k % 2 == 0 { "s" } else { "a" };
+            let h = Hooks { pre: vec![Hact::Count], reg: true, post: vec![Hact::Alias(1)], xh: vec![], dpre: 1, dpost: 1 };
+            out.push(format!("{} burst=1", case_line(out.len(), mode, "ok", k % 3 == 0, &h, if k % 2 == 0 { "close" } else { "loss" }, "idle", 1, 0, 16)));
         }
         // two servers built alike share one peer registry (the ids they hand out must not collide,
         // whatever the order in which hooks and registry were attached)
